@@ -48,6 +48,7 @@ const (
 	kfAffinityTwoDomains = "self-affinity-bootstrap-leaves-node-undetermined"
 	kfNilSelector        = "required-affinity-with-nil-selector-follows-any-pod"
 	kfUpdateError        = "update-error-during-relaxation-drops-topology-ownership"
+	kfRelaxGroup         = "spread-group-created-during-relaxation-misses-placed-pods"
 	kfDupValues          = "selector-duplicate-values-hash-collision"
 	kfFilterHash         = "spread-group-hash-ignores-node-filter-values"
 	kfUnlabelledNode     = "pod-counted-in-domain-of-unlabelled-node"
@@ -675,14 +676,56 @@ var debugDump bool
 // zone label). They are generated by default and tagged with their kf_key; C02_EXTRA=0 switches them off.
 var extraShapes = os.Getenv("C02_EXTRA") != "0"
 
-// solveFaults (env C02_SOLVE_FAULTS=1): API faults that start only after the scheduler was built, i.e. they hit
-// Topology.Update during relaxation. They expose a reported defect (key kfUpdateError) that is not yet listed as a
-// known finding, so they are off by default.
-var solveFaults = os.Getenv("C02_SOLVE_FAULTS") == "1"
+// solveFaults: API faults that start only after the scheduler was built, i.e. they hit Topology.Update during
+// relaxation. They expose the known finding kfUpdateError; such a scenario is emitted twice: once without the fault
+// (unkeyed core case) and once with it (keyed). C02_SOLVE_FAULTS=0 switches them off.
+var solveFaults = os.Getenv("C02_SOLVE_FAULTS") != "0"
+
+// relaxGroups (env C02_RELAX_GROUPS=1): a pod that carries a spread constraint AND can be relaxed in a way that changes
+// its node filter (several OR-ed node-affinity terms, or a PreferNoSchedule pool it does not tolerate). Update then
+// creates a new spread group in the middle of the pass, which misses the pods placed earlier (reported, key
+// kfRelaxGroup, not yet listed). By default only the normalised core case (single term / NoSchedule taint) is run.
+var relaxGroups = os.Getenv("C02_RELAX_GROUPS") == "1"
+
+func relaxGroupShape(sc sCase) bool {
+	pns := lo.SomeBy(sc.Pools, func(p sPool) bool { return p.PreferNoSchedule })
+	return lo.SomeBy(sc.Batch, func(p sPod) bool { return len(p.Spread) > 0 && (len(p.ZoneTerms) > 0 || (pns && !p.Tolerates)) })
+}
+
+func normaliseRelaxGroups(sc sCase) sCase {
+	out := sc
+	out.Pools = append([]sPool{}, sc.Pools...)
+	for i := range out.Pools {
+		out.Pools[i].PreferNoSchedule = false
+	}
+	out.Batch = append([]sPod{}, sc.Batch...)
+	for i, p := range out.Batch {
+		if len(p.Spread) > 0 && len(p.ZoneTerms) > 0 {
+			out.Batch[i].ZoneIn = p.ZoneTerms[len(p.ZoneTerms)-1]
+			out.Batch[i].ZoneTerms = nil
+		}
+	}
+	return out
+}
 
 func runSolve(c *kit.Ctx, r *kit.Rand, idx int) {
 	sc := genScenario(r)
-	runScenario(c, sc)
+	switch {
+	case relaxGroupShape(sc):
+		runScenario(c, normaliseRelaxGroups(sc)) // unkeyed core case
+		if relaxGroups {
+			c.Count("B:keyed-variant:" + kfRelaxGroup)
+			runScenario(c, sc)
+		}
+	case strings.HasPrefix(sc.Fault, "solve:"):
+		core := sc
+		core.Fault = ""
+		runScenario(c, core) // unkeyed core case
+		c.Count("B:keyed-variant:" + kfUpdateError)
+		runScenario(c, sc)
+	default:
+		runScenario(c, sc)
+	}
 }
 
 func runScenario(c *kit.Ctx, sc sCase) {
@@ -1090,6 +1133,9 @@ func findingShape(sc sCase, newDomains map[string]map[string][]string) string {
 	placedNode := func(p sPod) (string, bool) { n, ok := sc.Placement[p.NS+"/"+p.Name]; return n, ok }
 	if strings.HasPrefix(sc.Fault, "solve:") {
 		return kfUpdateError
+	}
+	if relaxGroupShape(sc) {
+		return kfRelaxGroup
 	}
 	for _, sp := range sc.Batch {
 		if _, ok := placedNode(sp); !ok {
